@@ -316,6 +316,7 @@ fn step_inner(o: &mut Obj, ws: &[&str]) -> String {
         ["tp", x] => return fb(f32::from(adsr::TimePeriod::from(f(x)))),
         ["sl", x] => return fb(f32::from(adsr::SustainLevel::from(f(x)))),
         ["notenew", x] => return u8::from(Note::new(n(x) as u8)).to_string(),
+        ["notefrom", x] => return u8::from(Note::from(std::hint::black_box(n(x) as u8))).to_string(),
         ["cap", sr] => {
             return ribbon_controller::sample_rate_to_capacity(std::hint::black_box(n(sr) as u32)).to_string()
         }
@@ -334,6 +335,21 @@ fn step_inner(o: &mut Obj, ws: &[&str]) -> String {
         (Obj::Adsr(a), ["tick"]) => {
             a.tick();
             adsr_obs(a)
+        }
+        // `ticks N`: up to N ticks, stopping after the tick on which the phase changes; the observable is that of the last
+        // tick plus the number of ticks made (implementation-side long runs only: not part of the correspondence streams)
+        (Obj::Adsr(a), ["ticks", x]) => {
+            let st0 = a.verif_state().0;
+            let mut k = 0u64;
+            let lim = n(x);
+            while k < lim {
+                a.tick();
+                k += 1;
+                if a.verif_state().0 != st0 {
+                    break;
+                }
+            }
+            format!("{} {}", adsr_obs(a), k)
         }
         (Obj::Adsr(a), ["set", k, x]) => {
             let v = f(x);
@@ -374,7 +390,9 @@ fn step_inner(o: &mut Obj, ws: &[&str]) -> String {
             format!("{} {} {} {}", quant_obs(q), c.note_num, fb(c.stairstep), fb(c.fraction))
         }
         (Obj::Quant(q), [op @ ("allow" | "forbid"), rest @ ..]) => {
-            let notes: Vec<Note> = rest.iter().map(|s| Note::new(n(s) as u8)).collect();
+            // both public constructors are exercised: `Note::new` for the even positions of the list, `Note::from` for the odd
+            let notes: Vec<Note> =
+                rest.iter().enumerate().map(|(i, s)| if i % 2 == 0 { Note::new(n(s) as u8) } else { Note::from(n(s) as u8) }).collect();
             if *op == "allow" {
                 q.allow(&notes)
             } else {
